@@ -1298,3 +1298,416 @@ Theorem twin_nested2_compile :
 Proof. exact TwinIf.twin_nested2_compile. Qed.
 Print Assumptions twin_nested2_compile.
 
+
+(* TwinMapScripts.v *)
+From Pory Require TwinMapScripts.
+Theorem twin_mapscripts_at :
+  forall (av : list (text * autovar)) (sw : list (text * text)) (ee : bool) (pf : toks -> Parser.res (token * text * text * toks))
+    (c : list (text * text)),
+  Independence.format_advs pf ->
+  Independence.format_local pf ->
+  Independence.format_lt pf ->
+  forall (f : nat) (xs : toks) (g : bool) (t1 t2 t3 : toks) (f' : nat) (x' : toks) (p1 : list mapscript) (q1 : list tablems) 
+    (j1 : impdata) (b1 : list stmt) (i1 : impdata) (z : toks) (sc : text) (sv : option text) (ts1 : toks) (F : nat)
+    (cases : list (text * (list stmt * impdata))) (ts2 : toks) (ss : list stmt) (imp' : impdata) (body ra : list token) 
+    (tp : top) (imp : impdata) (y : toks),
+  let name := tlit (cur t2) in
+  let sname := name ++ t "_" ++ tlit (cur x') in
+  eof_ended xs ->
+  5 * Datatypes.length xs + 3 <= f ->
+  scope_modifier true xs = Parser.Ok (g, t1) ->
+  expect_peek IDENT t1 = Some t2 ->
+  expect_peek LBRACE t2 = Some t3 ->
+  TwinMapScripts.ms_run av sw ee pf c name f (adv t3) [] [] imp0 f' x' p1 q1 j1 ->
+  curis RBRACE x' = false ->
+  curis IDENT x' = true ->
+  curis COLON (adv x') = false ->
+  curis LBRACE (adv x') = true ->
+  TwinParse.srun av sw ee pf c sname [] [] (adv (adv x')) b1 i1 z ->
+  curis PORYSWITCH z = true ->
+  poryswitch_header sw ee z = Parser.Ok (sc, sv, ts1) ->
+  5 * Datatypes.length z <= F ->
+  parse_pory_cases av sw ee pf c F sname [] [] (cur ts1) ts1 [] = Parser.Ok (cases, ts2) ->
+  pory_select cases sv = Some (ss, imp') ->
+  advs ts1 (body ++ ra) ->
+  TwinParse.srun av sw ee pf c sname [] [] (body ++ ra) ss imp' ra ->
+  advs ra ts2 ->
+  curis RBRACE ra = true \/ curis IDENT ra = true \/ curis INT ra = true ->
+  parse_mapscripts av sw ee pf c f xs = Parser.Ok (tp, imp, y) ->
+  exists (U : list token) (G : nat -> nat),
+    xs = U ++ z /\
+    Independence.Gw z 5 xs /\
+    advs xs z /\
+    eof_ended z /\
+    eof_ended (body ++ adv ts2) /\
+    Datatypes.length (body ++ adv ts2) < Datatypes.length z /\
+    (forall a b : nat, G a = G b -> a = b) /\
+    parse_mapscripts av sw ee pf c f (U ++ body ++ adv ts2) = Parser.Ok (Independence.g_top G tp, Independence.g_imp G imp, y).
+Proof. exact TwinMapScripts.twin_mapscripts_at. Qed.
+Print Assumptions twin_mapscripts_at.
+
+Theorem twin_ms_program_at :
+  forall (av : list (text * autovar)) (sw : list (text * text)) (ee : bool) (pf : toks -> Parser.res (token * text * text * toks)),
+  Independence.format_advs pf ->
+  Independence.format_local pf ->
+  Independence.format_lt pf ->
+  forall (T : toks) (f : nat) (st1 : pstate) (xs : toks) (g : bool) (t1 t2 t3 : toks) (f' : nat) (x' : toks) (p1 : list mapscript)
+    (q1 : list tablems) (j1 : impdata) (b1 : list stmt) (i1 : impdata) (z : toks) (sc : text) (sv : option text) (ts1 : toks) 
+    (F : nat) (cases : list (text * (list stmt * impdata))) (ts2 : toks) (ss : list stmt) (imp' : impdata) (body ra : list token)
+    (prog1 : program),
+  let c := pconsts st1 in
+  let name := tlit (cur t2) in
+  let sname := name ++ t "_" ++ tlit (cur x') in
+  eof_ended T ->
+  Independence.tops_run av sw ee pf (5 * Datatypes.length T + 4) TwinProgram.st0 T (S f) st1 xs ->
+  ttype (cur xs) = MAPSCRIPTS ->
+  scope_modifier true xs = Parser.Ok (g, t1) ->
+  expect_peek IDENT t1 = Some t2 ->
+  expect_peek LBRACE t2 = Some t3 ->
+  TwinMapScripts.ms_run av sw ee pf c name f (adv t3) [] [] imp0 f' x' p1 q1 j1 ->
+  curis RBRACE x' = false ->
+  curis IDENT x' = true ->
+  curis COLON (adv x') = false ->
+  curis LBRACE (adv x') = true ->
+  TwinParse.srun av sw ee pf c sname [] [] (adv (adv x')) b1 i1 z ->
+  curis PORYSWITCH z = true ->
+  poryswitch_header sw ee z = Parser.Ok (sc, sv, ts1) ->
+  5 * Datatypes.length z <= F ->
+  parse_pory_cases av sw ee pf c F sname [] [] (cur ts1) ts1 [] = Parser.Ok (cases, ts2) ->
+  pory_select cases sv = Some (ss, imp') ->
+  advs ts1 (body ++ ra) ->
+  TwinParse.srun av sw ee pf c sname [] [] (body ++ ra) ss imp' ra ->
+  advs ra ts2 ->
+  curis RBRACE ra = true \/ curis IDENT ra = true \/ curis INT ra = true ->
+  parse_program av sw ee pf T = Parser.Ok prog1 ->
+  exists (U : list token) (p2 : program),
+    T = U ++ z /\
+    Datatypes.length (U ++ body ++ adv ts2) < Datatypes.length T /\
+    parse_program av sw ee pf (U ++ body ++ adv ts2) = Parser.Ok p2 /\ shape_program prog1 = shape_program p2.
+Proof. exact TwinMapScripts.twin_ms_program_at. Qed.
+Print Assumptions twin_ms_program_at.
+
+Theorem twin_ms_program :
+  forall (av : list (text * autovar)) (sw : list (text * text)) (ee : bool) (pf : toks -> Parser.res (token * text * text * toks)),
+  Independence.format_advs pf ->
+  Independence.format_local pf ->
+  Independence.format_lt pf ->
+  forall (T : toks) (f : nat) (st1 : pstate) (xs : toks) (g : bool) (t1 t2 t3 : toks) (f' : nat) (x' : toks) (p1 : list mapscript)
+    (q1 : list tablems) (j1 : impdata) (b1 : list stmt) (i1 : impdata) (z : toks) (sc : text) (sv : option text) (ts1 : toks) 
+    (F : nat) (cases : list (text * (list stmt * impdata))) (ts2 : toks) (ss : list stmt) (imp' : impdata) (prog1 : program),
+  let c := pconsts st1 in
+  let name := tlit (cur t2) in
+  let sname := name ++ t "_" ++ tlit (cur x') in
+  eof_ended T ->
+  Independence.tops_run av sw ee pf (5 * Datatypes.length T + 4) TwinProgram.st0 T (S f) st1 xs ->
+  ttype (cur xs) = MAPSCRIPTS ->
+  scope_modifier true xs = Parser.Ok (g, t1) ->
+  expect_peek IDENT t1 = Some t2 ->
+  expect_peek LBRACE t2 = Some t3 ->
+  TwinMapScripts.ms_run av sw ee pf c name f (adv t3) [] [] imp0 f' x' p1 q1 j1 ->
+  curis RBRACE x' = false ->
+  curis IDENT x' = true ->
+  curis COLON (adv x') = false ->
+  curis LBRACE (adv x') = true ->
+  TwinParse.srun av sw ee pf c sname [] [] (adv (adv x')) b1 i1 z ->
+  curis PORYSWITCH z = true ->
+  poryswitch_header sw ee z = Parser.Ok (sc, sv, ts1) ->
+  5 * Datatypes.length z <= F ->
+  parse_pory_cases av sw ee pf c F sname [] [] (cur ts1) ts1 [] = Parser.Ok (cases, ts2) ->
+  pory_select cases sv = Some (ss, imp') ->
+  parse_program av sw ee pf T = Parser.Ok prog1 ->
+  exists
+    (U : list token) (l : list (text * (list stmt * impdata))) (key : text) (l1 l2 : list (text * (list stmt * impdata))) 
+  (tsc ra tsn : toks) (body : list token) (p2 : program),
+    T = U ++ z /\
+    cases = rev l /\
+    l = l1 ++ (key, (ss, imp')) :: l2 /\
+    assoc l2 key = None /\
+    (key = sval sv \/ key = t "_" /\ assoc l (sval sv) = None) /\
+    TwinParse.case_seq av sw ee pf c sname [] [] ts1 l1 tsc /\
+    TwinParse.case_at av sw ee pf c sname [] [] tsc key ss imp' ra tsn /\
+    TwinParse.case_seq av sw ee pf c sname [] [] tsn l2 ts2 /\
+    curis RBRACE ts2 = true /\
+    adv (adv tsc) = body ++ ra /\
+    Datatypes.length (U ++ body ++ adv ts2) < Datatypes.length T /\
+    parse_program av sw ee pf (U ++ body ++ adv ts2) = Parser.Ok p2 /\ shape_program prog1 = shape_program p2.
+Proof. exact TwinMapScripts.twin_ms_program. Qed.
+Print Assumptions twin_ms_program.
+
+Theorem twin_ms_compile_at :
+  forall (hl hd hs : N -> bool) (av : list (text * autovar)) (sw : list (text * text)) (ee : bool) (fc : fontcfg) (font : text) 
+    (ml : Z) (optimize : bool) (mpath : option text) (src : text) (f : nat) (st1 : pstate) (xs : toks) (g : bool) (t1 t2 t3 : toks) 
+    (f' : nat) (x' : toks) (p1 : list mapscript) (q1 : list tablems) (j1 : impdata) (b1 : list stmt) (i1 : impdata) 
+    (z : toks) (sc : text) (sv : option text) (ts1 : toks) (F : nat) (cases : list (text * (list stmt * impdata))) (ts2 : toks) 
+    (ss : list stmt) (imp' : impdata) (body ra : list token) (prog1 : program),
+  let pf := parse_format fc font ml ee in
+  let T := lex hl hd hs src in
+  let c := pconsts st1 in
+  let name := tlit (cur t2) in
+  let sname := name ++ t "_" ++ tlit (cur x') in
+  Independence.tops_run av sw ee pf (5 * Datatypes.length T + 4) TwinProgram.st0 T (S f) st1 xs ->
+  ttype (cur xs) = MAPSCRIPTS ->
+  scope_modifier true xs = Parser.Ok (g, t1) ->
+  expect_peek IDENT t1 = Some t2 ->
+  expect_peek LBRACE t2 = Some t3 ->
+  TwinMapScripts.ms_run av sw ee pf c name f (adv t3) [] [] imp0 f' x' p1 q1 j1 ->
+  curis RBRACE x' = false ->
+  curis IDENT x' = true ->
+  curis COLON (adv x') = false ->
+  curis LBRACE (adv x') = true ->
+  TwinParse.srun av sw ee pf c sname [] [] (adv (adv x')) b1 i1 z ->
+  curis PORYSWITCH z = true ->
+  poryswitch_header sw ee z = Parser.Ok (sc, sv, ts1) ->
+  5 * Datatypes.length z <= F ->
+  parse_pory_cases av sw ee pf c F sname [] [] (cur ts1) ts1 [] = Parser.Ok (cases, ts2) ->
+  pory_select cases sv = Some (ss, imp') ->
+  advs ts1 (body ++ ra) ->
+  TwinParse.srun av sw ee pf c sname [] [] (body ++ ra) ss imp' ra ->
+  advs ra ts2 ->
+  curis RBRACE ra = true \/ curis IDENT ra = true \/ curis INT ra = true ->
+  parse_program av sw ee pf T = Parser.Ok prog1 ->
+  forall (U : list token) (src' : text),
+  T = U ++ z ->
+  lex hl hd hs src' = U ++ body ++ adv ts2 ->
+  Compile.compile hl hd hs av sw ee fc font ml optimize mpath src = Compile.compile hl hd hs av sw ee fc font ml optimize mpath src'.
+Proof. exact TwinMapScripts.twin_ms_compile_at. Qed.
+Print Assumptions twin_ms_compile_at.
+
+Theorem twin_ms_compile :
+  forall (hl hd hs : N -> bool) (av : list (text * autovar)) (sw : list (text * text)) (ee : bool) (fc : fontcfg) (font : text) 
+    (ml : Z) (optimize : bool) (mpath : option text) (src : text) (f : nat) (st1 : pstate) (xs : toks) (g : bool) (t1 t2 t3 : toks) 
+    (f' : nat) (x' : toks) (p1 : list mapscript) (q1 : list tablems) (j1 : impdata) (b1 : list stmt) (i1 : impdata) 
+    (z : toks) (sc : text) (sv : option text) (ts1 : toks) (F : nat) (cases : list (text * (list stmt * impdata))) (ts2 : toks) 
+    (ss : list stmt) (imp' : impdata) (prog1 : program),
+  let pf := parse_format fc font ml ee in
+  let T := lex hl hd hs src in
+  let c := pconsts st1 in
+  let name := tlit (cur t2) in
+  let sname := name ++ t "_" ++ tlit (cur x') in
+  Independence.tops_run av sw ee pf (5 * Datatypes.length T + 4) TwinProgram.st0 T (S f) st1 xs ->
+  ttype (cur xs) = MAPSCRIPTS ->
+  scope_modifier true xs = Parser.Ok (g, t1) ->
+  expect_peek IDENT t1 = Some t2 ->
+  expect_peek LBRACE t2 = Some t3 ->
+  TwinMapScripts.ms_run av sw ee pf c name f (adv t3) [] [] imp0 f' x' p1 q1 j1 ->
+  curis RBRACE x' = false ->
+  curis IDENT x' = true ->
+  curis COLON (adv x') = false ->
+  curis LBRACE (adv x') = true ->
+  TwinParse.srun av sw ee pf c sname [] [] (adv (adv x')) b1 i1 z ->
+  curis PORYSWITCH z = true ->
+  poryswitch_header sw ee z = Parser.Ok (sc, sv, ts1) ->
+  5 * Datatypes.length z <= F ->
+  parse_pory_cases av sw ee pf c F sname [] [] (cur ts1) ts1 [] = Parser.Ok (cases, ts2) ->
+  pory_select cases sv = Some (ss, imp') ->
+  parse_program av sw ee pf T = Parser.Ok prog1 ->
+  exists
+    (U : list token) (l : list (text * (list stmt * impdata))) (key : text) (l1 l2 : list (text * (list stmt * impdata))) 
+  (tsc ra tsn : toks) (body : list token),
+    T = U ++ z /\
+    cases = rev l /\
+    l = l1 ++ (key, (ss, imp')) :: l2 /\
+    assoc l2 key = None /\
+    (key = sval sv \/ key = t "_" /\ assoc l (sval sv) = None) /\
+    TwinParse.case_seq av sw ee pf c sname [] [] ts1 l1 tsc /\
+    TwinParse.case_at av sw ee pf c sname [] [] tsc key ss imp' ra tsn /\
+    TwinParse.case_seq av sw ee pf c sname [] [] tsn l2 ts2 /\
+    curis RBRACE ts2 = true /\
+    adv (adv tsc) = body ++ ra /\
+    Datatypes.length (U ++ body ++ adv ts2) < Datatypes.length T /\
+    (forall src' : text,
+     lex hl hd hs src' = U ++ body ++ adv ts2 ->
+     Compile.compile hl hd hs av sw ee fc font ml optimize mpath src = Compile.compile hl hd hs av sw ee fc font ml optimize mpath src').
+Proof. exact TwinMapScripts.twin_ms_compile. Qed.
+Print Assumptions twin_ms_compile.
+
+Theorem no_case_ms_program :
+  forall (av : list (text * autovar)) (sw : list (text * text)) (ee : bool) (pf : toks -> Parser.res (token * text * text * toks)),
+  Independence.format_advs pf ->
+  Independence.format_lt pf ->
+  forall (T : toks) (f : nat) (st1 : pstate) (xs : toks) (g : bool) (t1 t2 t3 : toks) (f' : nat) (x' : toks) (p1 : list mapscript)
+    (q1 : list tablems) (j1 : impdata) (b1 : list stmt) (i1 : impdata) (z : toks) (sc : text) (sv : option text) (ts1 : toks) 
+    (F : nat) (cases : list (text * (list stmt * impdata))) (ts2 : toks),
+  let c := pconsts st1 in
+  let name := tlit (cur t2) in
+  let sname := name ++ t "_" ++ tlit (cur x') in
+  ee = true ->
+  eof_ended T ->
+  Independence.tops_run av sw ee pf (5 * Datatypes.length T + 4) TwinProgram.st0 T (S f) st1 xs ->
+  ttype (cur xs) = MAPSCRIPTS ->
+  scope_modifier true xs = Parser.Ok (g, t1) ->
+  expect_peek IDENT t1 = Some t2 ->
+  expect_peek LBRACE t2 = Some t3 ->
+  TwinMapScripts.ms_run av sw ee pf c name f (adv t3) [] [] imp0 f' x' p1 q1 j1 ->
+  curis RBRACE x' = false ->
+  curis IDENT x' = true ->
+  curis COLON (adv x') = false ->
+  curis LBRACE (adv x') = true ->
+  TwinParse.srun av sw ee pf c sname [] [] (adv (adv x')) b1 i1 z ->
+  curis PORYSWITCH z = true ->
+  poryswitch_header sw ee z = Parser.Ok (sc, sv, ts1) ->
+  5 * Datatypes.length z <= F ->
+  parse_pory_cases av sw ee pf c F sname [] [] (cur ts1) ts1 [] = Parser.Ok (cases, ts2) ->
+  pory_select cases sv = None -> parse_program av sw ee pf T = err_tok (cur z) "no poryswitch case found".
+Proof. exact TwinMapScripts.no_case_ms_program. Qed.
+Print Assumptions no_case_ms_program.
+
+Theorem no_case_ms_compile :
+  forall (hl hd hs : N -> bool) (av : list (text * autovar)) (sw : list (text * text)) (fc : fontcfg) (font : text) 
+    (ml : Z) (optimize : bool) (mpath : option text) (src : text) (f : nat) (st1 : pstate) (xs : toks) (g : bool) (t1 t2 t3 : toks) 
+    (f' : nat) (x' : toks) (p1 : list mapscript) (q1 : list tablems) (j1 : impdata) (b1 : list stmt) (i1 : impdata) 
+    (z : toks) (sc : text) (sv : option text) (ts1 : toks) (F : nat) (cases : list (text * (list stmt * impdata))) (ts2 : toks),
+  let pf := parse_format fc font ml true in
+  let T := lex hl hd hs src in
+  let c := pconsts st1 in
+  let name := tlit (cur t2) in
+  let sname := name ++ t "_" ++ tlit (cur x') in
+  Independence.tops_run av sw true pf (5 * Datatypes.length T + 4) TwinProgram.st0 T (S f) st1 xs ->
+  ttype (cur xs) = MAPSCRIPTS ->
+  scope_modifier true xs = Parser.Ok (g, t1) ->
+  expect_peek IDENT t1 = Some t2 ->
+  expect_peek LBRACE t2 = Some t3 ->
+  TwinMapScripts.ms_run av sw true pf c name f (adv t3) [] [] imp0 f' x' p1 q1 j1 ->
+  curis RBRACE x' = false ->
+  curis IDENT x' = true ->
+  curis COLON (adv x') = false ->
+  curis LBRACE (adv x') = true ->
+  TwinParse.srun av sw true pf c sname [] [] (adv (adv x')) b1 i1 z ->
+  curis PORYSWITCH z = true ->
+  poryswitch_header sw true z = Parser.Ok (sc, sv, ts1) ->
+  5 * Datatypes.length z <= F ->
+  parse_pory_cases av sw true pf c F sname [] [] (cur ts1) ts1 [] = Parser.Ok (cases, ts2) ->
+  pory_select cases sv = None ->
+  exists e : perr,
+    Compile.compile hl hd hs av sw true fc font ml optimize mpath src = Compile.OutErr e /\
+    emsg e = t "no poryswitch case found" /\ els e = tline (cur z) /\ ecs e = tsb (cur z).
+Proof. exact TwinMapScripts.no_case_ms_compile. Qed.
+Print Assumptions no_case_ms_compile.
+
+Theorem twin_mapscripts_nested :
+  forall (av : list (text * autovar)) (sw : list (text * text)) (ee : bool) (pf : toks -> Parser.res (token * text * text * toks)),
+  Independence.format_advs pf ->
+  Independence.format_local pf ->
+  Independence.format_lt pf ->
+  forall (c : list (text * text)) (f : nat) (xs : toks) (g : bool) (t1 t2 t3 : toks) (f' : nat) (x' : toks) (p1 : list mapscript)
+    (q1 : list tablems) (j1 : impdata) (z : toks) (bsz csz : list nat) (sc : text) (sv : option text) (ts1 : toks) (F : nat)
+    (cases : list (text * (list stmt * impdata))) (ts2 : toks) (ss : list stmt) (imp' : impdata) (body ra : list token) 
+    (tp : top) (imp : impdata) (y : toks),
+  let name := tlit (cur t2) in
+  let sname := name ++ t "_" ++ tlit (cur x') in
+  eof_ended xs ->
+  5 * Datatypes.length xs + 3 <= f ->
+  scope_modifier true xs = Parser.Ok (g, t1) ->
+  expect_peek IDENT t1 = Some t2 ->
+  expect_peek LBRACE t2 = Some t3 ->
+  TwinMapScripts.ms_run av sw ee pf c name f (adv t3) [] [] imp0 f' x' p1 q1 j1 ->
+  curis RBRACE x' = false ->
+  curis IDENT x' = true ->
+  curis COLON (adv x') = false ->
+  curis LBRACE (adv x') = true ->
+  TwinIf.nest2 av sw ee pf c sname z bsz csz true [] [] (adv (adv x')) ->
+  curis PORYSWITCH z = true ->
+  poryswitch_header sw ee z = Parser.Ok (sc, sv, ts1) ->
+  5 * Datatypes.length z <= F ->
+  parse_pory_cases av sw ee pf c F sname bsz csz (cur ts1) ts1 [] = Parser.Ok (cases, ts2) ->
+  pory_select cases sv = Some (ss, imp') ->
+  advs ts1 (body ++ ra) ->
+  TwinParse.srun av sw ee pf c sname bsz csz (body ++ ra) ss imp' ra ->
+  advs ra ts2 ->
+  curis RBRACE ra = true \/ curis IDENT ra = true \/ curis INT ra = true ->
+  csz = [] \/ TwinParse.LC ra (adv ts2) ->
+  parse_mapscripts av sw ee pf c f xs = Parser.Ok (tp, imp, y) ->
+  exists (U : list token) (G : nat -> nat),
+    xs = U ++ z /\
+    Independence.Gw z 5 xs /\
+    advs xs z /\
+    eof_ended z /\
+    eof_ended (body ++ adv ts2) /\
+    Datatypes.length (body ++ adv ts2) < Datatypes.length z /\
+    (forall a b : nat, G a = G b -> a = b) /\
+    parse_mapscripts av sw ee pf c f (U ++ body ++ adv ts2) = Parser.Ok (Independence.g_top G tp, Independence.g_imp G imp, y).
+Proof. exact TwinMapScripts.twin_mapscripts_nested. Qed.
+Print Assumptions twin_mapscripts_nested.
+
+Theorem twin_ms_nested_program_at :
+  forall (av : list (text * autovar)) (sw : list (text * text)) (ee : bool) (pf : toks -> Parser.res (token * text * text * toks)),
+  Independence.format_advs pf ->
+  Independence.format_local pf ->
+  Independence.format_lt pf ->
+  forall (T : toks) (f : nat) (st1 : pstate) (xs : toks) (g : bool) (t1 t2 t3 : toks) (f' : nat) (x' : toks) (p1 : list mapscript)
+    (q1 : list tablems) (j1 : impdata) (z : toks) (bsz csz : list nat) (sc : text) (sv : option text) (ts1 : toks) (F : nat)
+    (cases : list (text * (list stmt * impdata))) (ts2 : toks) (ss : list stmt) (imp' : impdata) (body ra : list token) 
+    (prog1 : program),
+  let c := pconsts st1 in
+  let name := tlit (cur t2) in
+  let sname := name ++ t "_" ++ tlit (cur x') in
+  eof_ended T ->
+  Independence.tops_run av sw ee pf (5 * Datatypes.length T + 4) TwinProgram.st0 T (S f) st1 xs ->
+  ttype (cur xs) = MAPSCRIPTS ->
+  scope_modifier true xs = Parser.Ok (g, t1) ->
+  expect_peek IDENT t1 = Some t2 ->
+  expect_peek LBRACE t2 = Some t3 ->
+  TwinMapScripts.ms_run av sw ee pf c name f (adv t3) [] [] imp0 f' x' p1 q1 j1 ->
+  curis RBRACE x' = false ->
+  curis IDENT x' = true ->
+  curis COLON (adv x') = false ->
+  curis LBRACE (adv x') = true ->
+  TwinIf.nest2 av sw ee pf c sname z bsz csz true [] [] (adv (adv x')) ->
+  curis PORYSWITCH z = true ->
+  poryswitch_header sw ee z = Parser.Ok (sc, sv, ts1) ->
+  5 * Datatypes.length z <= F ->
+  parse_pory_cases av sw ee pf c F sname bsz csz (cur ts1) ts1 [] = Parser.Ok (cases, ts2) ->
+  pory_select cases sv = Some (ss, imp') ->
+  advs ts1 (body ++ ra) ->
+  TwinParse.srun av sw ee pf c sname bsz csz (body ++ ra) ss imp' ra ->
+  advs ra ts2 ->
+  curis RBRACE ra = true \/ curis IDENT ra = true \/ curis INT ra = true ->
+  csz = [] \/ TwinParse.LC ra (adv ts2) ->
+  parse_program av sw ee pf T = Parser.Ok prog1 ->
+  exists (U : list token) (p2 : program),
+    T = U ++ z /\
+    Datatypes.length (U ++ body ++ adv ts2) < Datatypes.length T /\
+    parse_program av sw ee pf (U ++ body ++ adv ts2) = Parser.Ok p2 /\ shape_program prog1 = shape_program p2.
+Proof. exact TwinMapScripts.twin_ms_nested_program_at. Qed.
+Print Assumptions twin_ms_nested_program_at.
+
+Theorem twin_ms_nested_compile_at :
+  forall (hl hd hs : N -> bool) (av : list (text * autovar)) (sw : list (text * text)) (ee : bool) (fc : fontcfg) (font : text) 
+    (ml : Z) (optimize : bool) (mpath : option text) (src : text) (f : nat) (st1 : pstate) (xs : toks) (g : bool) (t1 t2 t3 : toks) 
+    (f' : nat) (x' : toks) (p1 : list mapscript) (q1 : list tablems) (j1 : impdata) (z : toks) (bsz csz : list nat) 
+    (sc : text) (sv : option text) (ts1 : toks) (F : nat) (cases : list (text * (list stmt * impdata))) (ts2 : toks) 
+    (ss : list stmt) (imp' : impdata) (body ra : list token) (prog1 : program),
+  let pf := parse_format fc font ml ee in
+  let T := lex hl hd hs src in
+  let c := pconsts st1 in
+  let name := tlit (cur t2) in
+  let sname := name ++ t "_" ++ tlit (cur x') in
+  Independence.tops_run av sw ee pf (5 * Datatypes.length T + 4) TwinProgram.st0 T (S f) st1 xs ->
+  ttype (cur xs) = MAPSCRIPTS ->
+  scope_modifier true xs = Parser.Ok (g, t1) ->
+  expect_peek IDENT t1 = Some t2 ->
+  expect_peek LBRACE t2 = Some t3 ->
+  TwinMapScripts.ms_run av sw ee pf c name f (adv t3) [] [] imp0 f' x' p1 q1 j1 ->
+  curis RBRACE x' = false ->
+  curis IDENT x' = true ->
+  curis COLON (adv x') = false ->
+  curis LBRACE (adv x') = true ->
+  TwinIf.nest2 av sw ee pf c sname z bsz csz true [] [] (adv (adv x')) ->
+  curis PORYSWITCH z = true ->
+  poryswitch_header sw ee z = Parser.Ok (sc, sv, ts1) ->
+  5 * Datatypes.length z <= F ->
+  parse_pory_cases av sw ee pf c F sname bsz csz (cur ts1) ts1 [] = Parser.Ok (cases, ts2) ->
+  pory_select cases sv = Some (ss, imp') ->
+  advs ts1 (body ++ ra) ->
+  TwinParse.srun av sw ee pf c sname bsz csz (body ++ ra) ss imp' ra ->
+  advs ra ts2 ->
+  curis RBRACE ra = true \/ curis IDENT ra = true \/ curis INT ra = true ->
+  csz = [] \/ TwinParse.LC ra (adv ts2) ->
+  parse_program av sw ee pf T = Parser.Ok prog1 ->
+  forall (U : list token) (src' : text),
+  T = U ++ z ->
+  lex hl hd hs src' = U ++ body ++ adv ts2 ->
+  Compile.compile hl hd hs av sw ee fc font ml optimize mpath src = Compile.compile hl hd hs av sw ee fc font ml optimize mpath src'.
+Proof. exact TwinMapScripts.twin_ms_nested_compile_at. Qed.
+Print Assumptions twin_ms_nested_compile_at.
+
